@@ -1257,6 +1257,9 @@ def finish_tables(F, rep, rule="C19.1"):
                         if pos == self.node_start(i) + self.node_len(i) - self.KK:
                             return Opaque("K", {"kmer"}, {"end": "last_kmer", "node": i})
                     return Opaque("K", {"kmer"}, {"end": "k-mer at position %s of the packed store (no node's terminal k-mer)" % pos, "node": None})
+                if fn.get("trait") == "Mer" and name == "len" and args and isinstance(recv(it, args[0]), Opaque) and "seq" in tags_of(recv(it, args[0])) \
+                        and isinstance(recv(it, args[0]).info.get("node"), int):
+                    return Int(64, False, val=self.node_len(recv(it, args[0]).info["node"]))
                 if fn.get("trait") == "Vmer" and name in ("first_kmer", "last_kmer", "term_kmer", "get_kmer"):
                     s_ = recv(it, args[0])
                     which = name
@@ -1380,8 +1383,8 @@ def finish_tables(F, rep, rule="C19.1"):
         # graph sizes: 0..3, plus one past every size constant the code reachable from this function mentions (block sizes, cut-offs)
         big = [c + 1 for c in size_thresholds(F, body)]
         sizes = [0, 1, 2, 3] + big[-(3 if rep.tier == "thorough" else 2):]
-        for n in sizes:
-            def run(h, n=n):
+        for n, stranded in [(n_, False) for n_ in sizes] + [(n_, True) for n_ in (0, 2)]:
+            def run(h, n=n, stranded=stranded):
                 it = Interp(F, False, h)
                 if n > 1000:
                     it.max_steps = 400 * n + 1000000
@@ -1396,7 +1399,7 @@ def finish_tables(F, rep, rule="C19.1"):
                 else:
                     seqs = Opaque("PackedDnaStringSet", {"sequences"})
                 me = struct_of(F, "graph::BaseGraph", {"sequences": seqs, "exts": Opaque("Vec", {"exts-vec"}),
-                                                        "data": Opaque("Vec", {"data-vec"}), "stranded": mkbool(False)})
+                                                        "data": Opaque("Vec", {"data-vec"}), "stranded": mkbool(stranded)})
                 return it.call_body(body, [me])
             for a_, r, h in explore(lambda script, n=n: H(script, n), run):
                 rows += 1
@@ -1411,6 +1414,34 @@ def finish_tables(F, rep, rule="C19.1"):
                 if not (isinstance(r, Adt) and r.name == "graph::DebruijnGraph"):
                     inc = inc or "%s returns %r" % (fname, r)
                     continue
+                # the finished graph IS the graph that was handed in: its strandedness, node extensions, payloads and sequences
+                base = r.fields[names.index("base")] if "base" in names else None
+                if isinstance(base, Adt) and base.name == "graph::BaseGraph":
+                    bn = [f["name"] for f in F.adts["graph::BaseGraph"]["variants"][0]["fields"]]
+                    bf = {nm_: base.fields[i_] for i_, nm_ in enumerate(bn)}
+                    lost = None
+                    st_ = bf.get("stranded")
+                    if "stranded" in bf and not (isinstance(st_, Int) and st_.is_conc() and bool(st_.val) == stranded):
+                        lost = "its strandedness flag is %r, the graph handed in was %s" % (st_, "stranded" if stranded else "unstranded")
+                    elif "exts" in bf and "exts-vec" not in tags_of(bf["exts"]):
+                        lost = "its extension vector is not the one handed in (%r)" % (bf["exts"],)
+                    elif "data" in bf and "data-vec" not in tags_of(bf["data"]):
+                        lost = "its payload vector is not the one handed in (%r)" % (bf["data"],)
+                    elif "sequences" in bf and isinstance(bf["sequences"], Adt):
+                        sf = {f["name"]: bf["sequences"].fields[i_] for i_, f in enumerate(F.adts[bf["sequences"].name]["variants"][0]["fields"])}
+                        st2, ln2 = sf.get("start"), sf.get("length")
+                        if isinstance(st2, VecV) and isinstance(ln2, VecV) and all(isinstance(e, Int) and e.is_conc() for e in list(st2.elems) + list(ln2.elems)):
+                            if [e.val for e in st2.elems] != [h.node_start(i) for i in range(n)] or [e.val for e in ln2.elems] != [h.node_len(i) for i in range(n)]:
+                                lost = "its packed sequences are at (start, length) = %s, the graph handed in had %s" % (
+                                    list(zip([e.val for e in st2.elems], [e.val for e in ln2.elems]))[:4], [(h.node_start(i), h.node_len(i)) for i in range(n)][:4])
+                        if lost is None and "sequence" in sf and "packed" not in tags_of(sf["sequence"]):
+                            lost = "its backing string is not the one handed in"
+                    if lost:
+                        rep.violated(rule, "%s/base" % fname, "%s on a%s graph of %d node(s): the finished graph is not the graph handed in — %s (every query of the finished graph "
+                                     "reads them)" % (fname, " stranded" if stranded else "n unstranded", n, lost), site=F.site(body, body["line"]),
+                                     witness={"kind": "base-identity", "n": n, "stranded": stranded})
+                        bad = True
+                        break
                 slots = {}
                 for nm in ("left_order", "right_order"):
                     v = r.fields[names.index(nm)]
